@@ -130,6 +130,14 @@ def _rescale(val, shift, n_frac, exact=False):
         return val * np.array(2**shift, dtype=object)
     return utils.scale_raw(val, shift)      # (Python integers when the scaled value does not fit in 63 bits)
 
+def _rescale_raw(val, shift, n_frac):
+    """
+    `val` * 2**shift for the raw functions of one operand and the reductions: like the sums and products of two operands,
+    exact rationals for a negative shift of values of more than 53 bits, Python integers when the scaled value needs 64 bits.
+    """
+    val = _raw_array(val)
+    return _rescale(val, shift, n_frac, utils.needs_exact_scale(val, shift))
+
 def _needs_exact_sum(x, y, n_frac):
     """
     True if the sum or difference of the raw values of `x` and `y`, rescaled to `n_frac` fractional bits with a negative shift
@@ -347,7 +355,7 @@ def fxp_max(x, axis=None, out=None, out_like=None, sizing='optimal', method='raw
     """
     def _max_raw(x, n_frac, **kwargs):
         precision_cast = (lambda m: np.array(m, dtype=object)) if n_frac >= _n_word_max else (lambda m: m)
-        return np.max(x.val, **kwargs) * precision_cast(2**(n_frac - x.n_frac))
+        return _rescale_raw(np.max(x.val, **kwargs), n_frac - x.n_frac, n_frac)
 
     kwargs['axis'] = axis  
     return _function_over_one_var(repr_func=np.max, raw_func=_max_raw, x=x, out=out, out_like=out_like, sizing=sizing, method=method, **kwargs)
@@ -358,7 +366,7 @@ def fxp_min(x, axis=None, out=None, out_like=None, sizing='optimal', method='raw
     """
     def _min_raw(x, n_frac, **kwargs):
         precision_cast = (lambda m: np.array(m, dtype=object)) if n_frac >= _n_word_max else (lambda m: m)
-        return np.min(x.val, **kwargs) * precision_cast(2**(n_frac - x.n_frac))
+        return _rescale_raw(np.min(x.val, **kwargs), n_frac - x.n_frac, n_frac)
     
     kwargs['axis'] = axis  
     return _function_over_one_var(repr_func=np.min, raw_func=_min_raw, x=x, out=out, out_like=out_like, sizing=sizing, method=method, **kwargs)
@@ -620,7 +628,7 @@ def sum(x, axis=None, out=None, out_like=None, sizing='optimal', method='raw', *
     """
     def _sum_raw(x, n_frac, **kwargs):
         precision_cast = (lambda m: np.array(m, dtype=object)) if n_frac >= _n_word_max else (lambda m: m)
-        return np.sum(x.val, **kwargs) * precision_cast(2**(n_frac - x.n_frac))
+        return _rescale_raw(np.sum(x.val, **kwargs), n_frac - x.n_frac, n_frac)
 
     if not isinstance(x, Fxp):
         x = Fxp(x)
@@ -640,7 +648,7 @@ def cumsum(x, axis=None, out=None, out_like=None, sizing='optimal', method='raw'
     """
     def _cumsum_raw(x, n_frac, **kwargs):
         precision_cast = (lambda m: np.array(m, dtype=object)) if n_frac >= _n_word_max else (lambda m: m)
-        return np.cumsum(x.val, **kwargs) * precision_cast(2**(n_frac - x.n_frac))
+        return _rescale_raw(np.cumsum(x.val, **kwargs), n_frac - x.n_frac, n_frac)
 
     if not isinstance(x, Fxp):
         x = Fxp(x)
@@ -686,7 +694,7 @@ def sort(x, axis=-1, out=None, out_like=None, sizing='optimal', method='raw', **
     """
     def _sort_raw(x, n_frac, **kwargs):
         precision_cast = (lambda m: np.array(m, dtype=object)) if n_frac >= _n_word_max else (lambda m: m)
-        return np.sort(x.val, **kwargs) * precision_cast(2**(n_frac - x.n_frac))
+        return _rescale_raw(np.sort(x.val, **kwargs), n_frac - x.n_frac, n_frac)
 
     kwargs['axis'] = axis
     return _function_over_one_var(repr_func=np.sort, raw_func=_sort_raw, x=x, out=out, out_like=out_like, sizing=sizing, method=method, **kwargs)
@@ -709,7 +717,7 @@ def transpose(x, axes=None, out=None, out_like=None, sizing='optimal', method='r
     """
     def _transpose_raw(x, n_frac, **kwargs):
         precision_cast = (lambda m: np.array(m, dtype=object)) if n_frac >= _n_word_max else (lambda m: m)
-        return np.transpose(x.val, axes=kwargs.get('axes', None)) * precision_cast(2**(n_frac - x.n_frac))
+        return _rescale_raw(np.transpose(x.val, axes=kwargs.get('axes', None)), n_frac - x.n_frac, n_frac)
 
     kwargs['axes'] = axes
     return _function_over_one_var(repr_func=np.transpose, raw_func=_transpose_raw, x=x, out=out, out_like=out_like, sizing=sizing, method=method, **kwargs)
@@ -737,7 +745,7 @@ def clip(a, a_min=None, a_max=None, out=None, out_like=None, sizing='optimal', m
         val_min = _raw_bound(kwargs.pop('a_min', None), x, float('-inf'))
         val_max = _raw_bound(kwargs.pop('a_max', None), x, float('inf'))
 
-        return utils.clip(x.val, val_min=val_min, val_max=val_max) * precision_cast(2**(n_frac - x.n_frac))
+        return _rescale_raw(utils.clip(x.val, val_min=val_min, val_max=val_max), n_frac - x.n_frac, n_frac)
 
     # (np.clip names its bounds `min` and `max` since NumPy 2.1)
     kwargs['a_min'] = kwargs.pop('min', a_min)
@@ -750,7 +758,7 @@ def diagonal(a, offset=0, axis1=0, axis2=1, out=None, out_like=None, sizing='opt
     """
     def _diagonal_raw(x, n_frac, **kwargs):
         precision_cast = (lambda m: np.array(m, dtype=object)) if n_frac >= _n_word_max else (lambda m: m)
-        return np.diagonal(x.val, **kwargs) * precision_cast(2**(n_frac - x.n_frac))
+        return _rescale_raw(np.diagonal(x.val, **kwargs), n_frac - x.n_frac, n_frac)
 
     kwargs['offset'] = offset
     kwargs['axis1'] = axis1
@@ -763,7 +771,7 @@ def trace(a, offset=0, axis1=0, axis2=1, out=None, out_like=None, sizing='optima
     """
     def _trace_raw(x, n_frac, **kwargs):
         precision_cast = (lambda m: np.array(m, dtype=object)) if n_frac >= _n_word_max else (lambda m: m)
-        return np.trace(x.val, **kwargs) * precision_cast(2**(n_frac - x.n_frac))
+        return _rescale_raw(np.trace(x.val, **kwargs), n_frac - x.n_frac, n_frac)
 
     if not isinstance(a, Fxp):
         a = Fxp(a)
@@ -795,7 +803,7 @@ def prod(a, axis=None, out=None, out_like=None, sizing='optimal', method='raw', 
     def _prod_raw(x, n_frac, axis=None, **kwargs):
         precision_cast = (lambda m: np.array(m, dtype=object)) if n_frac >= _n_word_max else (lambda m: m)
         num_of_products = _num_of_products(a, axis)
-        return np.prod(x.val, axis=axis, **kwargs) * precision_cast(2**(n_frac - num_of_products * x.n_frac))
+        return _rescale_raw(np.prod(x.val, axis=axis, **kwargs), n_frac - num_of_products * x.n_frac, n_frac)
 
     if not isinstance(a, Fxp):
         a = Fxp(a)
@@ -816,7 +824,7 @@ def dot(x, y, out=None, out_like=None, sizing='optimal', method='raw', **kwargs)
     """
     def _dot_raw(x, y, n_frac, **kwargs):
         precision_cast = (lambda m: np.array(m, dtype=object)) if n_frac >= _n_word_max else (lambda m: m)
-        return np.dot(x.val, y.val, **kwargs) * precision_cast(2**(n_frac - x.n_frac - y.n_frac))
+        return _rescale_raw(np.dot(x.val, y.val, **kwargs), n_frac - x.n_frac - y.n_frac, n_frac)
 
     if not isinstance(x, Fxp):
         x = Fxp(x)
